@@ -657,6 +657,9 @@ def rule_gate_for(ctx, rep, members):
 
 def run(ctx, rep):
     rule_gate(ctx, rep)
+    # premise of the verdict: the count equals the number of owning handles on every path, unwinding included
+    balance.rule_bal(ctx, rep)
+    balance.rule_unw(ctx, rep)
     for tag, F, E in ctx.each():
         A = balance.analysis(tag, F, E)
         # ---- decline behaviour and the panicking deprecated writers
@@ -675,6 +678,10 @@ def run(ctx, rep):
     from . import c02
 
     c02.rule_dec_release(ctx, rep)  # the Acquire gate orders nothing unless the decrements it reads from are Release
+    from . import c07 as _c07
+
+    _c07.rule_guard(ctx, rep)  # a handle re-pointed behind a transient must be written back on every exit, or the count of its old block no longer matches its owners
+    balance.rule_writeback(ctx, rep)
     balance.rule_count_addr(ctx, rep)
     rep.floor("R-COUNT-ADDR", 1, "one instance per run")
     balance.rule_use_after_release(ctx, rep)  # the gate is only meaningful if nobody keeps using a block after giving its count back
